@@ -98,6 +98,7 @@ FAMILIES = {
     "stl": ["stl_same_names"],
     "svg": ["svg_nested"],
     "3dxml": ["3dxml_faces"],
+    "bz2_stl": ["bz2_bomb"],
 }
 
 
@@ -131,6 +132,8 @@ def build(sub, a, b, fmt):
         return obj_same_names(50 + a % 1500)
     if sub == "stl_same_names":
         return stl_same_names(20 + a % 120)
+    if sub == "bz2_bomb":
+        return bz2_bomb([16, 96][a % 2] * 2**20)
     if sub == "3dxml_faces":
         return threedxml_faces(50 + a % 600)
     if sub == "svg_nested":
@@ -207,3 +210,18 @@ def threedxml_faces(n):
         for name, data in out:
             z.writestr(zipfile.ZipInfo(name, (2020, 1, 1, 0, 0, 0)), data, compress_type=zipfile.ZIP_DEFLATED)
     return buf.getvalue()
+
+
+def bz2_bomb(size):
+    """A bz2 stream of an 84-byte binary STL header (zero triangles) followed by `size` zero bytes: a few hundred bytes in all."""
+    import bz2
+
+    if ("bz2", size) not in _BOMB_CACHE:
+        co = bz2.BZ2Compressor(9)
+        out = [co.compress(b"binary stl".ljust(80, b" ") + (0).to_bytes(4, "little"))]
+        block = bytes(2**20)
+        for _ in range(size // 2**20):
+            out.append(co.compress(block))
+        out.append(co.flush())
+        _BOMB_CACHE[("bz2", size)] = b"".join(out)
+    return _BOMB_CACHE[("bz2", size)]
